@@ -290,6 +290,15 @@ func (w *World) bigIntSource(v ssa.Value, s deepSite, level int, depth int) (str
 func (w *World) helperBigInt(c *ssa.Call, idx int, s deepSite, level int, depth int) (string, bool) {
 	f := c.Call.StaticCallee()
 	var srcs []string
+	if isNewHelper(f) {
+		// the helper is looked at through this call: its parameters stand for this call's arguments
+		if old, had := enteredBy[f]; had {
+			defer func() { enteredBy[f] = old }()
+		} else {
+			defer delete(enteredBy, f)
+		}
+		enteredBy[f] = c
+	}
 	for _, r := range returnsFlat(f) {
 		if idx >= len(r.Results) {
 			return "", false
